@@ -4,7 +4,7 @@ HOOKS = {
     "guard": "--cfg geodesy_verif",
     "enable": "harness/.cargo/config.toml sets rustflags = [\"--cfg\", \"geodesy_verif\"]; every check runs `cargo build --offline` in /verif/harness, which rebuilds the path dependency /repo from its working tree with the hooks on",
     "baseline_off_cmd": "cd /repo && cargo test --workspace --no-fail-fast --offline",
-    "source_commits": ["bd23dc0"],
+    "source_commits": ["bd23dc0", "94ad313"],
     "add_only": True,
 }
 
@@ -26,7 +26,7 @@ CHECKS = {
 }
 
 CHECKS["C03"] = {
-    "text": "Explicit TLA+ specification of instantiation and application (spec/Pipeline.tla): reference semantics (Inst, Plan, BigApply) and a small-step machine structured like the code (frame per pipeline level, one action per step taken or skipped, min-count). TLC checks, for every enumerated definition, machine = reference = stand-alone execution of the plan, inverse plan = reversed flipped forward plan, honest counts. Every enumerated behaviour is replayed into the real library: exact operands and counts in both directions on harness-defined probe operators, bit-identity of the pipeline with its steps applied one after another as stand-alone operators (probes and built-in stand-ins: utm, lcc, merc, cart, helmert, tmerc, curvature), and with the literal expansion.",
+    "text": "Explicit TLA+ specification of instantiation and application (spec/Pipeline.tla): reference semantics (Inst, Plan, BigApply) and a small-step machine structured like the code (frame per pipeline level, one action per step taken or skipped, min-count). TLC checks, for every enumerated definition, machine = reference = stand-alone execution of the plan, inverse plan = reversed flipped forward plan, honest counts. Every enumerated behaviour is replayed into the real library: exact operands and counts in both directions on harness-defined probe operators, bit-identity of the pipeline with its steps applied one after another as stand-alone operators (probes and built-in stand-ins: utm, lcc, merc, cart, helmert, tmerc, curvature), and with the literal expansion. The data-free projection of the machine (spec/Runtime.tla: one action per hook - built, dispatch, applied, step) is model checked over a universe of nested pipelines (MC_Runtime) and used as trace acceptor (Trace_Runtime): the repository's own test suite, run with the hooks on, and a spread of the behaviours above, executed by the harness, must be behaviours of it (order, reversal, direction handed to every step, omissions, fresh stack, count = minimum, missing inverse = 0).",
     "design_ref": "DESIGN.md §5.3",
     "note": "Bounded: definitions of <= 2 steps (quick) / 3 steps (thorough) over 5 probes and 6 macros x all modifier combinations x 5 layouts. Probe operators are defined by the harness; built-ins take part only relationally (their numerics are never an oracle). A lone top-level step carries no omit_*.",
     "technique": "TLA+ spec + TLC exhaustive enumeration; TLC-generated behaviours replayed into the real library (exact and relational comparison)",
